@@ -244,10 +244,20 @@ func (ft *funcTr) exprExt(e ast.Expr, want types.Type) ([]pre, string, bool) {
 				return pres, "(" + a + " " + op + " " + b + ")%Z", true
 			}
 		}
+		if k == kInt64 {
+			if p, v, ok := ft.int64Binary(x, a, b); ok { // int64.go
+				return append(pres, p...), v, true
+			}
+		}
 		t.fail(x, "operator %s on values of type %s (int64: constants and comparisons only; arrays: == and !=)", x.Op, Tx)
 	case *ast.UnaryExpr:
 		if x.Op != token.AND {
 			if k := kindOfExpr(x.X); k == kInt64 || k == kArray || k == kLibType {
+				if k == kInt64 {
+					if p, v, ok := ft.int64Unary(x); ok { // int64.go
+						return p, v, true
+					}
+				}
 				t.fail(x, "unary operator %s on a value of type %s", x.Op, t.info.Types[x.X].Type)
 			}
 			return nil, "", false
